@@ -33,6 +33,24 @@ COUNTS = ['KyroDBServiceImpl::enforce_vector_quota', 'KyroDBServiceImpl::reserve
 HANDLERS = ['insert', 'bulk_insert', 'bulk_load_hnsw', 'delete', 'batch_delete']
 
 
+def flag_edges(b, ov, name, what_rx):
+    """True edges of the switches on a bool flag.  The flag is recognised by what it IS — its fully expanded origin matches what_rx — whatever the local is called and
+    however many named copies (`Ok(x) => x`, the binding of `?`) lie between the call and the test; a local literally called `name` is accepted as before."""
+    of = None
+    out = []
+    for i, blk in enumerate(b.blocks):
+        if blk['t']['k'] != 'switch':
+            continue
+        for tg, p in flow.switch_edge_predicates(b, i, ov):
+            if p == 'bool[var:%s]' % name:
+                out.append((i, tg))
+            elif re.match(r'^bool\[var:\w+\]$', p):
+                of = of or flow.Origin(b)
+                if any(t == tg and re.match(r'^bool\[(?:%s)\]$' % what_rx, q) for t, q in flow.switch_edge_predicates(b, i, of)):
+                    out.append((i, tg))
+    return out
+
+
 def run(ctx, prog):
     ctx.not_decided = ['the arithmetic of the counts over whole histories', 'restart recount equality (needs C11)']
     lm = LockModel(prog)
@@ -80,12 +98,8 @@ def run(ctx, prog):
             ctx.inst('C14.R2', 'rpc ' + h, 'failed insert returns the slot', False, 'no tested failure edge / no decrement call')
             continue
         # on the failure edge: every path passes decrement unless via the `already_exists` edge
-        ae = []
-        for i, blk in enumerate(b.blocks):
-            if blk['t']['k'] == 'switch':
-                for tg, p in flow.switch_edge_predicates(b, i, ov):
-                    if p == 'bool[var:already_exists]':
-                        ae.append((i, tg))
+        # (the flag = the Ok value of enforce_vector_quota, taken with `?` in insert and with a match in bulk_insert)
+        ae = flag_edges(b, ov, 'already_exists', r'KyroDBServiceImpl::enforce_vector_quota\(.*\)@(?:Ok→Ok|Continue→Continue)\.0')
         starts = [e[1] for e in f_e]
         r = b.reach(starts, avoid_blocks=dec, avoid_edges=ae) | set(starts)
         # "leaves the failure handling" = reaches a return or the next stream item
@@ -101,6 +115,9 @@ def run(ctx, prog):
     loads = b.calls_to('TieredEngine::bulk_load_cold_tier')
     ctx.floor('C14.R2', 'bulk_load_cold_tier sites in bulk_load_hnsw', len(loads), 2, 'in-stream batch and final batch')
     rel = b.calls_to('KyroDBServiceImpl::release_reserved_tenant_vectors')
+    # "the reservation" = what is handed to reserve_tenant_vectors (each batch site has its own local for it): the amounts released are compared with that rendering,
+    # not with a name; the historical name stays accepted
+    reserved_amt = set(flow.render(ov.of_operand(x.args[2])) for x in b.calls_to('KyroDBServiceImpl::reserve_tenant_vectors') if len(x.args) > 2) | {'var:reserved_slots'}
     for k, c in enumerate(loads):
         s_e, f_e = flow.outcome_edges(b, c)
         if not f_e:
@@ -110,7 +127,7 @@ def run(ctx, prog):
         # Err: release(reserved_slots) on every path before leaving
         starts = [e[1] for e in f_e]
         exits = set(b.return_blocks()) | set(x.bb for x in b.calls if x.is_('re:Streaming::message$')) | set(others)
-        rel_full = [x.bb for x in rel if flow.render(ov.of_operand(x.args[2])) == 'var:reserved_slots']
+        rel_full = [x.bb for x in rel if flow.render(ov.of_operand(x.args[2])) in reserved_amt]
         r = b.reach(starts, avoid_blocks=rel_full) | set(starts)
         bad = [x for x in exits if x in r]
         ctx.inst('C14.R2', 'rpc bulk_load_hnsw', 'batch #%d: Err ⇒ release(reserved_slots)' % k, bool(rel_full) and not bad,
@@ -139,7 +156,7 @@ def run(ctx, prog):
                 return False, 'census predicate is %s' % ret_[:60]
             return True, 'reserved − |{reserved ids that exist}|'
         rel_part = [x.bb for x in rel if _census_release(x)[0]]
-        rel_other = [(x, _census_release(x)[1]) for x in rel if not _census_release(x)[0] and flow.render(ov.of_operand(x.args[2])) != 'var:reserved_slots']
+        rel_other = [(x, _census_release(x)[1]) for x in rel if not _census_release(x)[0] and flow.render(ov.of_operand(x.args[2])) not in reserved_amt]
         if rel_other and k == 0:
             ctx.inst('C14.R2', 'rpc bulk_load_hnsw', 'every partial release is computed from a census of the reserved ids', False,
                      'release at %s: %s — a count taken from the loader (failed / loaded) also counts rejected overwrites and duplicate ids that never reserved a slot' % (rel_other[0][0].loc, rel_other[0][1]))
@@ -147,7 +164,7 @@ def run(ctx, prog):
         for i, blk in enumerate(b.blocks):
             if blk['t']['k'] == 'switch':
                 for tg, p in flow.switch_edge_predicates(b, i, ov):
-                    if p == '!cmp[+ var:reserved_slots >= 1]':
+                    if p in ('!cmp[+ %s >= 1]' % v_ for v_ in reserved_amt):
                         zero.append((i, tg))
         r = b.reach(starts, avoid_blocks=rel_part, avoid_edges=zero) | set(starts)
         bad = [x for x in exits if x in r]
@@ -165,6 +182,8 @@ def run(ctx, prog):
     ctx.rule('C14.R3', 'decrement by reported count: delete decrements 1 only on the `existed` edge of the engine result; '
                        'batch_delete decrements by the count the engine returned')
     d = server.handler(ctx, 'C14.R3', 'delete', 'KyroDBServiceImpl::tenant_context')
+    # `existed` = the bool the engine's delete returns in Ok, whatever the handler calls it
+    util.bind_role(d, 'existed', type_rx=r'^bool$', origin_rx=r'^TieredEngine::delete\(.*\)@Ok→Ok\.0$')
     ov = flow.Origin(d, stop_at_vars=True)
     dec = d.calls_to('KyroDBServiceImpl::decrement_tenant_vectors')
     ex = []
@@ -226,6 +245,10 @@ def run(ctx, prog):
                  'count over %s; sort ≺ dedup ≺ count: %s; tiers delete the same list: %s' % (src, bool(srt) and bool(ddp), same_list))
     ctx.rule('C14.R4', 'the start-up recount of every tenant (ids_for_metadata_filter) completes before the gRPC service is added to the server')
     m = server.main_body(ctx, 'C14.R4', 'TieredEngine::recover')
+    # roles in main: the count table = the Option<RwLock<HashMap<String, usize>>> local (what ServerState.tenant_vector_counts holds); the map being filled = the
+    # HashMap<String, usize> that is wrapped into that lock
+    util.bind_role(m, 'tenant_vector_counts', type_rx=r'^core::option::Option<lock_api::rwlock::RwLock<.*HashMap<alloc::string::String, usize>>>$')
+    util.bind_role(m, 'counts', type_rx=r'(^|[^\w:])std::collections::hash::map::HashMap<alloc::string::String, usize>$', used_as=(r'RwLock::new$', 0))
     fam = prog.family(m)
     rc = [(b, c) for b in fam for c in b.calls if c.callee and c.is_('re:ids_for_metadata_filter$', 're:count_tenant_vectors', 're:recount')]
     adds = [c for c in m.calls if c.callee and c.is_('re:Router.*::add_service$', 're:Server.*::add_service$', 're:::add_service$', 're:serve_with')]
